@@ -119,6 +119,28 @@ def check_one(kind: str, s: str):
     if srv != srv_expected:
         out.append((f'{kind}-server-accept-mismatch', 'server accepts the same strings as the client',
                     f'server validator {"accepts" if srv else "rejects"} {kind} {s!r}; client parse -> {got!r}'))
+    if out:
+        return out
+    # the three parsers live in one module and are called on the same strings in one process (cpu, memory and storage of one job):
+    # the answer of each must not depend on which parser saw the string before
+    for k2 in ('cpu', 'memory', 'storage'):
+        if k2 == kind:
+            continue
+        try:
+            got2 = f[k2](s)
+        except Exception as e:
+            return [(f'{k2}-after-{kind}-raises-{type(e).__name__}', 'parse returns a value or None',
+                     f'{k2}({s!r}) called after {kind}({s!r}) raised {e!r}')]
+        want2 = exact(s, k2)
+        if got2 != want2:
+            return [(f'{k2}-after-{kind}-differs', 'parsed value equals exact decimal value whatever was parsed before',
+                     f'{k2}({s!r}) called after {kind}({s!r}) = {got2!r}, exact {want2!r}')]
+    try:
+        again = f[kind](s)
+    except Exception as e:
+        return [(f'{kind}-again-raises-{type(e).__name__}', 'parse returns a value or None', f'second {kind}({s!r}) raised {e!r}')]
+    if again != got:
+        return [(f'{kind}-again-differs', 'parsing is a function of the string', f'{kind}({s!r}) = {got!r}, then {again!r} after the other parsers saw it')]
     return out
 
 
